@@ -749,6 +749,8 @@ def run_C16(pid, tier, seed, model_ok=True):
     fails, divs, extras, samples = [], [], [], []
     evals = 0
     distinct = set()
+    lsm_tables = []
+    nbs = [0]
 
     def one(item):
         name, base, new = item
@@ -768,6 +770,11 @@ def run_C16(pid, tier, seed, model_ok=True):
         chunk_real = {}
         if small and model_ok:
             lines += ['wfm @base @new %s' % (','.join(ms) or '-'), 'sdiff @base @new %s' % (','.join(ms) or '-'), 'applypatch @base @raw']
+            # the model's scan loop (Bsdiff.v) fed with what the real suffix-array matcher answers at every position
+            if len(new) <= (30000 if tier == 'thorough' else 9000) and len(base) > 0:
+                tb = subprocess.run([UVH, 'lsm', os.path.join(d, 'b'), os.path.join(d, 'n')], check=True, capture_output=True, text=True).stdout.split()
+                lsm_tables.append((name, len(base), len(new), tb))
+                lines.append('bsdiff @base @new %s' % (','.join(tb) or '-'))
             # the Reader pulled through read() with assorted buffer-size schedules, on the genuine stream and on
             # a truncated and a corrupted one (error for error)
             if len(new) <= 40000:
@@ -824,6 +831,10 @@ def run_C16(pid, tier, seed, model_ok=True):
             mtr = [l for l in out if l.startswith('out=')]
             if kv.get('wfm') != 'true':
                 divs.append((name, 0, 'wf_matches = %s on the matches bidiff emitted' % kv.get('wfm'), 'matches: %s' % ms[:5], ops, header))
+            if 'bsdiff' in kv:
+                nbs[0] += 1
+                if kv['bsdiff'] != (','.join(ms) or '-'):
+                    divs.append((name, 0, 'model scan loop (Bsdiff.v) emits %s' % kv['bsdiff'][:200], 'real BsdiffIterator emits %s' % (','.join(ms) or '-')[:200], ops, header))
             if kv.get('sdiff') != '%d.%s' % (len(raw), hashlib.sha256(raw).hexdigest()):
                 divs.append((name, 0, 'model writer output %s' % kv.get('sdiff'), 'real bidiff stream %d.%s' % (len(raw), hashlib.sha256(raw).hexdigest()), ops, header))
             if kv.get('apply') != 'ok:%d.%s' % (len(new), hashlib.sha256(new).hexdigest()):
@@ -841,9 +852,18 @@ def run_C16(pid, tier, seed, model_ok=True):
                     fails.append((name, 0, 'C16: real Reader with buffer sizes %s does not reproduce the new binary: %s' % (sp, rv), ops, header))
         if len(samples) < 5 and name.startswith(('edit', 'rep', 'big')):
             samples.append({'pair': name, 'base_len': len(base), 'new_len': len(new), 'matches': len(ms), 'patch_len': len(raw)})
+    # the hypothesis of C16_scan_loop_emits_wf_matches, checked on every answer of the real matcher
+    nlsm = 0
+    for name, bl, nl, tb in lsm_tables:
+        for sc, e in enumerate(tb):
+            a, b = e.split('.')
+            nlsm += 1
+            if int(a) + int(b) > bl or sc + int(b) > nl:
+                divs.append((name, 0, 'lsm_bounded (hypothesis of the scan-loop theorems)', 'the real matcher answered (%s,%s) at scan %d with |old|=%d |new|=%d' % (a, b, sc, bl, nl), [], []))
+                break
     shutil.rmtree(work, ignore_errors=True)
     return dict(evaluations=evals, distinct=len(distinct), samples=samples, divergences=divs, monitor_fail=fails,
-                rule='(base,new) pairs: identical / edited / unrelated / empty target / shared prefix or suffix / repeated blocks / grow / shrink at sizes crossing 4096, 8192 (and 65536, MiB in thorough); tool make_patch -> library update installs -> artifact == new; model: wf_matches on real matches, model writer == real bidiff bytes, model reader == new; model Reader state machine == real bipatch Reader under 6-7 buffer-size schedules on the genuine, a truncated and a bit-flipped stream; non-trivial = distinct (|base|,|new|,#matches)',
+                rule='model scan loop with the real matcher as oracle == real BsdiffIterator matches (%d pairs, %d matcher answers all inside the buffers); ' % (nbs[0], nlsm) + '(base,new) pairs: identical / edited / unrelated / empty target / shared prefix or suffix / repeated blocks / grow / shrink at sizes crossing 4096, 8192 (and 65536, MiB in thorough); tool make_patch -> library update installs -> artifact == new; model: wf_matches on real matches, model writer == real bidiff bytes, model reader == new; model Reader state machine == real bipatch Reader under 6-7 buffer-size schedules on the genuine, a truncated and a bit-flipped stream; non-trivial = distinct (|base|,|new|,#matches)',
                 dist={'pairs': evals, 'reader_buffer_schedules': nchunk}, extras=extras, traces=evals)
 
 
